@@ -66,6 +66,8 @@ func scenarios(prop, tier string) []*Scenario {
 	case "C07":
 		r = append(r,
 			&Scenario{Name: "genesis/1-2-subscribers", Cfg: hdr.Config{MaxBranchDepth: 144}, N: pick(6, 7), Subs: 2, Probes: true},
+			// cousin reorganisations between a branch of a branch and a later fork need 7 headers
+			&Scenario{Name: "genesis/7-headers-1-subscriber", Cfg: hdr.Config{MaxBranchDepth: 144}, N: 7, Subs: 1, Slots: []string{"a", "H"}},
 			&Scenario{Name: "genesis/clean+reload", Cfg: hdr.Config{MaxBranchDepth: 144}, N: pick(5, 6), Subs: 1, M: pick(1, 2),
 				Maint: []hdr.Op{opClean, opReload}},
 		)
